@@ -327,6 +327,11 @@ func (t *Dense) ReadNpy(r io.Reader) (err error){
 	t.makeArray(size)
 
 	switch t.t.Kind() {
+	case reflect.Bool:
+		data := t.Bools()
+		for i := 0; i < size; i++ {
+			br.Read(&data[i])
+		}
 	{{range .Kinds -}}
 	case reflect.{{reflectKind .}}:
 		data := t.{{sliceOf .}}
